@@ -12,6 +12,7 @@ import shutil
 import subprocess
 import sys
 import tempfile
+import threading
 import time
 
 VERIF = os.path.dirname(os.path.dirname(os.path.abspath(__file__)))
@@ -93,6 +94,7 @@ class Run:
         self.exhaustive = None
         self.bin = None
         self._tlcn = 0
+        self._lock = threading.Lock()
         self.tlc_runs = []
         self.known_findings = load_known_findings()
 
@@ -132,11 +134,15 @@ class Run:
 
     # ---------------------------------------------------------------------- TLC
     def tlc(self, module, cfg, workers=None, simulate=None, depth=None, env=None, timeout=900,
-            dfs=False, coverage=False, extra_args=None, label=None, seed=None):
-        """Run TLC on spec/<module>.tla with spec/<cfg> in a scratch copy of spec/."""
-        self._tlcn += 1
-        d = os.path.join(self.scratch, "tlc%d" % self._tlcn)
+            dfs=False, coverage=False, extra_args=None, label=None, seed=None, cfg_text=None, jvm=None):
+        """Run TLC on spec/<module>.tla with spec/<cfg> (or the given cfg text) in a scratch copy of spec/."""
+        with self._lock:
+            self._tlcn += 1
+            d = os.path.join(self.scratch, "tlc%d" % self._tlcn)
         shutil.copytree(SPEC, d)
+        if cfg_text is not None:
+            with open(os.path.join(d, cfg), "w") as f:
+                f.write(cfg_text)
         meta = os.path.join(d, "meta")
         args = ["timeout", str(timeout), "tlc", "-metadir", meta, "-config", cfg,
                 "-workers", str(workers or NPROC), "-noGenerateSpecTE"]
@@ -152,7 +158,7 @@ class Run:
             args += extra_args
         args.append(module + ".tla")
         e = dict(os.environ)
-        jto = "-Xss64m"
+        jto = "-Xss64m" + (" " + jvm if jvm else "")
         if dfs:
             jto += " -Dtlc2.tool.queue.IStateQueue=StateDeque"
         e["JAVA_TOOL_OPTIONS"] = (e.get("JAVA_TOOL_OPTIONS", "") + " " + jto).strip()
@@ -164,8 +170,9 @@ class Run:
         r.wall = round(time.time() - t, 2)
         r.label = label or ("%s/%s" % (module, cfg))
         shutil.rmtree(d, ignore_errors=True)
-        self.tlc_runs.append({"run": r.label, "generated": r.generated, "distinct": r.distinct, "depth": r.depth,
-                              "ok": r.ok, "violation": r.violation, "error": r.error, "wall_s": r.wall})
+        with self._lock:
+            self.tlc_runs.append({"run": r.label, "generated": r.generated, "distinct": r.distinct, "depth": r.depth,
+                                  "ok": r.ok, "violation": r.violation, "error": r.error, "wall_s": r.wall})
         return r
 
     def mc(self, module, cfg, **kw):
